@@ -51,7 +51,7 @@ func main() {
 	r.Assume("column types INT/BIGINT/TINYINT/DECIMAL(4,1)/VARCHAR(4) utf8mb4_0900_bin; PK none/single/composite, 0-2 unique keys, 0-2 secondary indexes; small key spaces")
 	r.Assume("not generated (MySQL leaves the outcome open or the semantics are not fixed here): LIMIT or multi-row key updates without a total ORDER BY, ON DUPLICATE KEY UPDATE with more than one conflicting row, unstorable values under IGNORE, two unstorable values in one row, assignments reading a column assigned earlier in the statement")
 	r.Assume("excluded input class (known finding update-int-out-of-range-clamped, via=domain): UPDATE / ON DUPLICATE KEY UPDATE assignments whose value is outside the integer column's range")
-	r.Assume("excluded input class (known finding where-ne-fractional-literal-on-indexed-decimal, via=domain): WHERE col <> literal with a fractional literal on a DECIMAL column that leads an index")
+	r.Assume("excluded input class (known finding where-ne-fractional-literal-on-indexed-decimal, via=domain): WHERE col <> literal with a fractional literal on a DECIMAL column that is part of an index")
 	r.Assume("expressions that overflow 64 bits are not generated (exact 64-bit arithmetic is C25's property)")
 	r.Assume("REPLACE of a row identical to the single row it replaces may report 1 or 2 affected rows (MySQL's handler reports 1, the documented sum is 2)")
 
